@@ -95,13 +95,15 @@ ItemDefined(it, x) ==
     [] it.t \in {"sum", "product", "pow"} -> \A i \in 1..Len(it.args) : DefDefined(it.args[i], x)
     [] it.t = "trans" -> DefDefined(it.args[1], RAdd(x, R(it.x)))
 
-\* the power rule as implemented needs log(a(r)): a(r) must be positive
+\* where are the derivatives of the definition defined?  A power with a CONSTANT exponent k >= 0 is a polynomial in its base:
+\* differentiable wherever the base is, whatever the sign of the base (the general power rule a^b (b' ln a + b a'/a) needs a > 0
+\* only for an exponent that varies: PowVarCases below)
 RECURSIVE DefDomain(_, _), ItemDomain(_, _)
 DefDomain(d, x) == Selected(d, x) = 0 \/ ItemDomain(d.rs[Selected(d, x)].it, x)
 ItemDomain(it, x) ==
   CASE it.t = "leaf" -> ItemDefined(it, x)
     [] it.t \in {"sum", "product"} -> \A i \in 1..Len(it.args) : DefDomain(it.args[i], x)
-    [] it.t = "pow" -> DefDomain(it.args[1], x) /\ RLt(RZero, DefJet(it.args[1], x).v)
+    [] it.t = "pow" -> DefDomain(it.args[1], x)
     [] it.t = "trans" -> DefDomain(it.args[1], RAdd(x, R(it.x)))
 
 -----------------------------------------------------------------------------
